@@ -1,8 +1,10 @@
 (* Extract.v -- OCaml extraction of the executable model (Z stays Coq's binary Z). *)
 Require Import ExtrOcamlBasic.
-Require Import AV.Foam.Buf AV.Foam.Syntax AV.Foam.Codec AV.Foam.LibHdr AV.Foam.SExpr AV.Foam.SLex AV.Foam.Archive AV.Gen.FoamInfo.
+Require Import AV.Foam.Buf AV.Foam.Syntax AV.Foam.Codec AV.Foam.LibHdr AV.Foam.SExpr AV.Foam.SLex AV.Foam.SFlo AV.Foam.Archive AV.Foam.LibSect AV.Gen.FoamInfo.
 Extraction "Foam/extracted/foam.ml"
   dec enc enc_node wf wf_node canon reduce_all zero_x sint_reduce eval_sint tag_format
   read_lib parse_hdr write_hdr chk_header get_section index_of subst_nth
   foam_params_ok lib_params_ok FP LP places
-  wr rd wf_text tcanon ctx0 text_params_ok TP pr_int pr_str rd_int rd_str read_ar find_member.
+  wr rd wf_text tcanon ctx0 text_params_ok TP pr_int pr_str rd_int rd_str read_ar find_member atom_of_text
+  enc_fileid dec_fileid enc_names dec_names names_of names_to_raw
+  enc_kinds dec_kinds enc_lazy_sect dec_lazy_sect enc_file_sect dec_file_sect.
